@@ -524,8 +524,36 @@ template <class G> struct Monitor {
             }
         return true;
     }
+    // neighbour lists and hasEdge tell the same story, each neighbour listed once (force is off in this mode)
+    static bool selfConsistent(const G &g) {
+        size_t n = g.getSize();
+        size_t entries = 0, pairs = 0;
+        for (VertexIndex i = 0; i < n; ++i) {
+            std::set<VertexIndex> seen;
+            for (auto j : g.getOutNeighbours(i)) {
+                ++entries;
+                if (j >= n || !seen.insert(j).second || !g.hasEdge(i, j)) return false;
+                if (!directed && !g.hasEdge(j, i)) return false;
+            }
+            for (VertexIndex j = 0; j < n; ++j)
+                if (g.hasEdge(i, j)) {
+                    ++pairs;
+                    if (!seen.count(j)) return false;
+                }
+        }
+        if (entries != pairs) return false;
+        size_t loops = 0;
+        for (VertexIndex i = 0; i < n; ++i) loops += g.hasEdge(i, i);
+        return g.getEdgeNumber() == (directed ? pairs : (pairs - loops) / 2 + loops);
+    }
     // byConstruction: what the generator intended (equal routes / a perturbed copy); only used for the coverage counters
     bool eqAll(const G &a, const G &b, bool byConstruction, const char *what, const std::string &ctx) {
+        if (!selfConsistent(a) || !selfConsistent(b)) {
+            // lists, hasEdge and the edge count contradict each other: "the set of edges" is not well defined for this
+            // object, which is C01/C02/C04's verdict; operator== is not judged on it
+            R.count("pairs_skipped_graph_internally_inconsistent");
+            return true;
+        }
         bool want = observablyEqual(a, b);
         bool r1 = (a == b), r2 = (b == a), n1 = (a != b), n2 = (b != a);
         R.count(want ? "equality_checks_expected_equal" : "equality_checks_expected_unequal");
